@@ -20,4 +20,5 @@ VIEW View
 INVARIANTS TypeOK C06_Order
 PROPERTIES C06_HWMonotone C06_QuorumReply C06_ReplyOnce C06_StaleFence C06_StaleMeta C06_AckGuard
 CHECK_DEADLOCK FALSE
-\* measured: 17,324 distinct / 1,135,660 generated states, depth 13, ~8 s with 8 workers on an idle machine
+\* measured: 17,324 distinct / 1,135,660 generated states, depth 13 (about 10 s with 8 workers on an idle
+\* 16-core machine; 45-130 s were observed while the machine ran at load 40-80)
